@@ -1,6 +1,8 @@
 import GoatProofs.Lemmas.C16PtDec
 import GoatProofs.Lemmas.C16PtClosure
 import Mathlib.Algebra.Group.MinimalAxioms
+import GoatProofs.Lemmas.C16PtAssocPoly
+import GoatProofs.Primes
 import GoatProofs.Group
 /-
 C16 (points part) — edwards448 points implement the Ed448-Goldilocks group.
@@ -263,5 +265,92 @@ def EdwardsGroup.ofAssoc (hp : Nat.Prime q) (hassoc : EdwardsAssoc) : EdwardsGro
     add_val := fun _ _ => rfl
     zero_val := rfl
     neg_val := fun _ => rfl }
+
+/-! ## associativity of the textbook law (Hales' polynomial certificates, `Lemmas/C16PtAssocPoly`) -/
+
+theorem mul_inv_eq {K : Type} [Field K] {n D x : K} (hD : D ≠ 0) (h : x = n * D⁻¹) : x * D = n := by
+  rw [h, mul_assoc, inv_mul_cancel₀ hD, mul_one]
+
+/-- ASSOCIATIVITY of the Edwards addition law on curve points (p prime) -/
+theorem edwardsAssoc (hp : Nat.Prime q) : EdwardsAssoc := by
+  intro a b c ha hb hc
+  have : Fact (Nat.Prime q) := ⟨hp⟩
+  have hab := add_onCurve hp ha hb
+  have hbc := add_onCurve hp hb hc
+  have hL := add_onCurve hp hab hc
+  have hR := add_onCurve hp ha hbc
+  have c1 := onCurve_F ha
+  have c2 := onCurve_F hb
+  have c3 := onCurve_F hc
+  have hdn := d_nonsquare hp
+  obtain ⟨n12p, n12m⟩ := edwards_complete ((d : ℤ) : F) hdn two_ne_zero_F c1 c2
+  obtain ⟨n23p, n23m⟩ := edwards_complete ((d : ℤ) : F) hdn two_ne_zero_F c2 c3
+  obtain ⟨nLp, nLm⟩ := edwards_complete ((d : ℤ) : F) hdn two_ne_zero_F (onCurve_F hab) c3
+  obtain ⟨nRp, nRm⟩ := edwards_complete ((d : ℤ) : F) hdn two_ne_zero_F c1 (onCurve_F hbc)
+  have core := assoc_core ((d : ℤ) : F) (a.x : F) (a.y : F) (b.x : F) (b.y : F) (c.x : F) (c.y : F)
+    ((Spec.Edwards448.add a b).x : F) ((Spec.Edwards448.add a b).y : F)
+    ((Spec.Edwards448.add b c).x : F) ((Spec.Edwards448.add b c).y : F) c1 c2 c3
+    (mul_inv_eq n12p (add_x_F hp a b)) (mul_inv_eq n12m (add_y_F hp a b))
+    (mul_inv_eq n23p (add_x_F hp b c)) (mul_inv_eq n23m (add_y_F hp b c))
+    n12p n12m n23p n23m nLp nLm nRp nRm
+  apply apoint_ext
+  · apply canon_eq_of_cast hL.1 hR.1
+    exact (add_x_F hp _ c).trans (core.1.trans (add_x_F hp a _).symm)
+  · apply canon_eq_of_cast hL.2.1 hR.2.1
+    exact (add_y_F hp _ c).trans (core.2.trans (add_y_F hp a _).symm)
+
+/-! ## closed forms: no hypothesis left
+
+`q` is prime (`GoatProofs.Primes.p448_prime`, Pratt certificate checked by the kernel), the Edwards
+law is associative (`edwardsAssoc`), hence the curve points ARE a commutative group (`theGroup`) and
+every theorem above holds without hypotheses.  Each `X_closed` is `X` with the primality argument
+(and, where present, the group argument) discharged. -/
+
+theorem q_prime : Nat.Prime q := GoatProofs.Primes.p448_prime
+
+theorem edwardsAssoc_closed : EdwardsAssoc := edwardsAssoc q_prime
+
+/-- the Ed448-Goldilocks group: curve points over GF(2^448 − 2^224 − 1) with the textbook law -/
+def theGroup : EdwardsGroup := EdwardsGroup.ofAssoc q_prime edwardsAssoc_closed
+
+theorem d_nonsquare_closed : type_of% (d_nonsquare q_prime) := d_nonsquare q_prime
+theorem add_correct_closed : type_of% (@add_correct q_prime) := @add_correct q_prime
+theorem double_correct_closed : type_of% (@double_correct q_prime) := @double_correct q_prime
+theorem sub_correct_closed : type_of% (@sub_correct q_prime) := @sub_correct q_prime
+theorem initialized_of_prep_closed : type_of% (@initialized_of_prep q_prime) := @initialized_of_prep q_prime
+theorem equal_iff_closed : type_of% (@equal_iff q_prime) := @equal_iff q_prime
+theorem bytes_canonical_closed : type_of% (@bytes_canonical q_prime) := @bytes_canonical q_prime
+theorem setBytes_sound_closed : type_of% (setBytes_sound q_prime) := setBytes_sound q_prime
+theorem setBytes_complete_closed : type_of% (@setBytes_complete q_prime) := @setBytes_complete q_prime
+theorem setBytes_bytes_closed : type_of% (setBytes_bytes q_prime) := setBytes_bytes q_prime
+theorem bytes_setBytes_closed : type_of% (@bytes_setBytes q_prime) := @bytes_setBytes q_prime
+theorem encode_inj_closed : type_of% (@encode_inj q_prime) := @encode_inj q_prime
+theorem identity_correct_closed : type_of% (identity_correct q_prime) := identity_correct q_prime
+theorem generator_correct_closed : type_of% (generator_correct q_prime) := generator_correct q_prime
+theorem add_onCurve_closed : type_of% (@add_onCurve q_prime) := @add_onCurve q_prime
+theorem spec_zero_add_closed : type_of% (@spec_zero_add q_prime) := @spec_zero_add q_prime
+theorem spec_neg_add_closed : type_of% (@spec_neg_add q_prime) := @spec_neg_add q_prime
+
+/-- the point operations of goat respect the operations of the Ed448 group -/
+theorem respects_closed : Respects Model.Ed448Pt.ops (GRep theGroup) := respects theGroup q_prime
+
+/-- `ScalarMult(x, q)` = x·Q in the Ed448 group, for every 56-octet scalar with bit 447 clear -/
+theorem scalarMult_correct_closed {Q : Model.Ed448Pt.Point} {g : theGroup.G} (hQ : GRep theGroup Q g)
+    (s : Bytes) (hlen : s.length = 56) (htop : (s.getD 55 0).toNat < 0x80) :
+    ∃ R, Model.Ed448Pt.scalarMult s Q = .ok R ∧ GRep theGroup R ((Bytes.decodeLE s : ℤ) • g) :=
+  scalarMult_correct theGroup q_prime hQ s hlen htop
+
+/-- `ScalarBaseMult(x)` = x·B -/
+theorem scalarBaseMult_correct_closed (s : Bytes) (hlen : s.length = 56) (htop : (s.getD 55 0).toNat < 0x80) :
+    ∃ R, Model.Ed448Pt.scalarBaseMult s = .ok R ∧ GRep theGroup R ((Bytes.decodeLE s : ℤ) • theGroup.B) :=
+  scalarBaseMult_correct theGroup q_prime s hlen htop
+
+/-- `VarTimeDoubleScalarBaseMult(a, A, b)` = a·A + b·B -/
+theorem doubleScalarMult_correct_closed {A : Model.Ed448Pt.Point} {g : theGroup.G} (hA : GRep theGroup A g)
+    (a b : Bytes) (hla : a.length = 56) (hlb : b.length = 56)
+    (hVa : Bytes.decodeLE a < 2 ^ 447) (hVb : Bytes.decodeLE b < 2 ^ 447) :
+    ∃ R, Model.Ed448Pt.doubleScalarBaseMult a A b = .ok R ∧
+      GRep theGroup R ((Bytes.decodeLE a : ℤ) • g + (Bytes.decodeLE b : ℤ) • theGroup.B) :=
+  doubleScalarMult_correct theGroup q_prime hA a b hla hlb hVa hVb
 
 end C16Pt
